@@ -336,6 +336,10 @@ pub proof fn lemma_ops_cost_take(ops: Seq<Operation>, i: int)
 #[verifier::external_body]
 pub struct DbHandle { _p: u8 }
 impl DbHandle {
+    /// DB::key_may_exist_cf: a bloom-filter style hint about the COMMITTED store; it knows nothing about operations already
+    /// staged in the batch being built, and may answer anything
+    #[verifier::external_body]
+    pub fn key_may_exist_cf<K: AsBytes>(&self, cf: &Handle, key: K) -> bool { unimplemented!() }
     /// DB::write_opt: hands the whole batch to RocksDB as one write
     #[verifier::external_body]
     pub fn write_opt(&self, batch: &rust_rocksdb::WriteBatch, opts: &rust_rocksdb::WriteOptions) -> (r: Result<(), std::fmt::Error>)
